@@ -10,6 +10,8 @@ import (
 	"testing"
 	"time"
 
+	etcdRaft "github.com/coreos/etcd/raft"
+	"github.com/coreos/etcd/raft/raftpb"
 	pb "github.com/marekgalovic/anndb/protobuf"
 	uuid "github.com/satori/go.uuid"
 	"verif/harness/mon"
@@ -31,6 +33,119 @@ func TestC20(t *testing.T) {
 			scenario(rec, c)
 		}
 	}
+	m := rec.N(3, 24)
+	for c := 0; c < m; c++ {
+		if rec.Mine(c + 2) {
+			rejoinThroughLaggingMember(rec, c)
+		}
+	}
+}
+
+// A removed node re-joins through a member that has not yet applied the
+// removal: the join is acknowledged, so once everybody has caught up every
+// member must list the node again.
+func rejoinThroughLaggingMember(rec *mon.Recorder, c int) {
+	desc := fmt.Sprintf("rejoin-through-lagging-member case=%d nodes=3", c)
+	rec.Current(desc)
+	cl := sim.New(sim.Options{Nodes: 3, Dir: os.Getenv("VERIF_SCRATCH") + fmt.Sprintf("/c20r-%d", c), TickEvery: 5 * time.Millisecond, Seed: rec.Seed() + int64(c)})
+	defer cl.Close()
+	var gateMu sync.Mutex
+	armed, engaged := false, false
+	release := make(chan struct{})
+	cl.OnEvent = func(n *sim.Node, group uuid.UUID, point string, args ...interface{}) {
+		if n.Idx != 1 || !uuid.Equal(group, uuid.Nil) || point != "ready" || len(args) == 0 {
+			return
+		}
+		rd, ok := args[0].(*etcdRaft.Ready)
+		if !ok {
+			return
+		}
+		gateMu.Lock()
+		hold := false
+		if armed && !engaged {
+			for _, e := range rd.CommittedEntries {
+				if e.Type == raftpb.EntryConfChange {
+					var cc raftpb.ConfChange
+					if cc.Unmarshal(e.Data) == nil && cc.Type == raftpb.ConfChangeRemoveNode && cc.NodeID == 3 {
+						hold, engaged = true, true
+					}
+				}
+			}
+		}
+		gateMu.Unlock()
+		if hold {
+			select { // node 2 learns of the committed removal but does not get to apply it yet
+			case <-release:
+			case <-time.After(20 * time.Second):
+			}
+		}
+	}
+	if err := cl.Start(); err != nil {
+		rec.Inconclusive(desc + ": cluster start: " + err.Error())
+		return
+	}
+	a, b, cn := cl.Nodes[0], cl.Nodes[1], cl.Nodes[2]
+	steps := []string{"3 nodes joined"}
+	replay := func() map[string]interface{} {
+		return map[string]interface{}{"case": c, "seed": rec.Seed(), "desc": desc, "steps": steps}
+	}
+	cl.Crash(cn.Idx)
+	cl.Teardown(cn.Idx)
+	gateMu.Lock()
+	armed = true
+	gateMu.Unlock()
+	var rmErr error
+	if !cl.Guard(15*time.Second, func() { rmErr = a.In.NodesManager.RemoveNode(cn.Id) }) || rmErr != nil {
+		close(release)
+		rec.Inconclusive(fmt.Sprintf("%s: removal of node 3 not acknowledged: %v", desc, rmErr))
+		return
+	}
+	steps = append(steps, "removal of 3 acknowledged by node 1")
+	gateMu.Lock()
+	isHeld := engaged
+	gateMu.Unlock()
+	if !isHeld {
+		// node 2 may simply not have received the commit yet; give it a moment
+		cl.WaitFor(3*time.Second, func() bool { gateMu.Lock(); defer gateMu.Unlock(); return engaged })
+	}
+	if _, still := book(b)[cn.Id]; !still {
+		close(release)
+		rec.Inconclusive(desc + ": node 2 had already applied the removal (the interleaving was not produced)")
+		return
+	}
+	steps = append(steps, "node 2 holds the committed removal unapplied")
+	cn.JoinVia = b.Addr
+	go func() { time.Sleep(400 * time.Millisecond); close(release) }()
+	if err := cl.StartNode(cn.Idx); err != nil {
+		rec.Inconclusive(fmt.Sprintf("%s: re-join of node 3 through node 2 failed: %v", desc, err))
+		return
+	}
+	steps = append(steps, "re-join of 3 through node 2 acknowledged; node 2 released")
+	rec.Count("rejoins_through_lagging_member", 1)
+	want := map[uint64]string{1: a.Addr, 2: b.Addr, 3: cn.Addr}
+	err := cl.WaitFor(15*time.Second, func() bool {
+		for _, n := range cl.Nodes {
+			bk := book(n)
+			for id, addr := range want {
+				if bk[id] != addr {
+					return false
+				}
+			}
+		}
+		return true
+	})
+	if err != nil {
+		r := replay()
+		books := ""
+		for _, n := range cl.Nodes {
+			books += fmt.Sprintf(" node %d: {%s}", n.Id, fmtBook(book(n)))
+		}
+		r["books"] = books
+		rec.Violation("join:acknowledged-but-absent:rejoin-through-member-behind-on-the-removal", fmt.Sprintf("%s: node 3's re-join was acknowledged by node 2, yet after every member caught up it is not listed by all:%s", desc, books), r)
+	} else {
+		rec.Count("books_checked", 3)
+	}
+	rec.Case(mon.Digest(desc), true)
 }
 
 func book(n *sim.Node) map[uint64]string {
